@@ -26,6 +26,7 @@ Conc(t) ==
     [] t = "NEST" -> <<"(", "?", ":", "(", "?", ":", "a", "|", "b", ")", "+", ")">>       \* nested group
     [] t = "CLS"  -> <<"(", "?", ":", "[", "^", ")", "]", "+", ")">>    \* a ')' inside a character class
     [] t = "CLB"  -> <<"(", "?", ":", "[", "]", "(", "a", "]", "+", ")">>   \* a literal ']' first in a class, then '('
+    [] t = "BS"   -> <<"\\", "\\">>                                 \* regex::escape of a literal backslash
     [] t = "E("   -> <<"\\", "(">>                                  \* regex::escape("(")
 
 RECURSIVE ConcSeq(_)
